@@ -32,3 +32,10 @@ func VerifNewTarget(dial func(ctx context.Context, network, addr string) (net.Co
 
 // VerifSetLimits installs a limits group (the production Init reads it from configuration).
 func VerifSetLimits(rt *Target, g *limits.Group) { rt.limits = g }
+
+// VerifSetIdleLifetime replaces the connection pool by one with the given idle lifetime
+// (seconds) for pooled connections (configuration directive conn_max_idle_time).
+func VerifSetIdleLifetime(rt *Target, sec int64) {
+	rt.pool.Close()
+	rt.pool = pool.New(pool.Config{MaxKeys: 5000, MaxConnsPerKey: 5, MaxConnLifetimeSec: sec, StaleKeyLifetimeSec: 300})
+}
